@@ -323,7 +323,12 @@ def rule_resolution(ck, F):
             if e.get("k") != "MethodCall":
                 return
             recv = W.NF.nf(e["recv"], env)
-            on_parts = isinstance(recv, tuple) and recv[0] == "field" and recv[2] == "parts"
+            # the receiver is a message's part table: by field name, or by its type (reached through a helper or a binding)
+            base = Hh.strip(e["recv"])
+            while base.get("k") == "MethodCall" and base["name"] in ("iter", "into_iter", "as_ref", "clone", "by_ref", "deref"):
+                base = Hh.strip(base["recv"])
+            bty = (base.get("ty") or "") + (base.get("adj_ty") or "")
+            on_parts = (isinstance(recv, tuple) and recv[0] == "field" and recv[2] == "parts") or ("OrderedMap<" in bty and "RustNode" in bty)
             if e["name"] in ("get", "get_key_value") and on_parts and e["args"]:
                 looks.append(("get", e, None))
             if e["name"] in ("find", "position", "any", "filter", "find_map", "rfind") and on_parts and e["args"]:
